@@ -12,6 +12,8 @@ B  code -> spec: every class table up to a bound is created on a real
    table; JSON-round-tripped nested configurations against explicit
    construction, bitwise.
 """
+import collections
+import collections.abc
 import itertools
 import json
 import random
@@ -55,20 +57,37 @@ def build(table):
     return classes
 
 
-def query_all(table, aliases):
-    classes = build(table)
+def _queries(classes, aliases):
     out = []
     for r in range(1, len(classes) + 1):
         for a in aliases:
             try:
                 inst = classes[r - 1].from_alias(a)
-                res = classes.index(type(inst)) + 1
+                res = classes.index(type(inst)) + 1 if type(inst) in classes else -2
             except ValueError:
                 res = 0
             except Exception:
                 res = -1
             out.append({"root": r, "alias": a, "result": res})
     return out
+
+
+def query_all(table, aliases, history=None):
+    """Registers the classes one at a time on a real AliasedFactory root and asks every (root, alias) query after
+    each registration.  The answers after the last registration are returned (TLC validates them); `history`
+    receives the answers after each earlier registration, which must be those of the shorter table - the registry
+    is a function of the classes defined so far, not of the look-ups made so far."""
+    classes = []
+    for k, row in enumerate(table):
+        base = A.AliasedFactory if row["parent"] == 0 else classes[row["parent"] - 1]
+        ns = {}
+        if not row["inherit"]:
+            ns["aliases"] = set(row["own"])
+        classes.append(type("K%d" % (k + 1), (base,), ns))
+        q = _queries(classes, aliases)
+        if history is not None and k + 1 < len(table):
+            history.append((k + 1, q))
+    return q
 
 
 FAMILY_ARGS = {
@@ -87,7 +106,14 @@ def live_registry(run):
     fams = [scales.ScalingFunction, filters.LinearFilterBank, filters.WindowFunction, compute.FrameComputer,
             pre.PreProcessor, post.PostProcessor]
     tid = 1000000
+    foreign = set()
     for fam in fams:
+        stack = [fam]
+        while stack:
+            c = stack.pop()
+            foreign |= set(getattr(c, "aliases", set()))
+            stack += [ch for ch in c.__subclasses__() if ch.__module__.startswith("pydrobert.speech")]
+    for fam in fams * 2:  # twice: the answers may not depend on the look-ups made before
         order = []
 
         def walk(c):
@@ -102,6 +128,8 @@ def live_registry(run):
             inherit = "aliases" not in c.__dict__
             table.append({"parent": parent, "inherit": inherit, "own": sorted(c.__dict__.get("aliases", set())), "name": c.__name__})
         all_aliases = sorted({a for c in order for a in getattr(c, "aliases", set())}) + ["no-such-alias", ""]
+        # aliases that only other families know are unknown here
+        all_aliases += sorted(foreign - set(all_aliases))
         queries = []
         for a in all_aliases:
             res = None
@@ -110,7 +138,7 @@ def live_registry(run):
                     with warnings.catch_warnings():
                         warnings.simplefilter("ignore")
                         inst = fam.from_alias(a, **kw)
-                    res = order.index(type(inst)) + 1
+                    res = order.index(type(inst)) + 1 if type(inst) in order else -2  # a class outside the family
                     break
                 except ValueError as e:
                     if "Cannot find subclass" in str(e):
@@ -119,7 +147,24 @@ def live_registry(run):
                 except TypeError:
                     continue
             if res is None:
-                raise common.MachineryError("could not instantiate alias %r of %s with any argument set" % (a, fam.__name__))
+                # from_alias raised TypeError for every argument set.  If every class of the family that carries the
+                # alias can be constructed directly from one of those sets, from_alias did not construct any of them.
+                cands = [c for c in order if a in getattr(c, "aliases", set())]
+
+                def buildable(c):
+                    for kw in FAMILY_ARGS[fam.__name__]:
+                        try:
+                            with warnings.catch_warnings():
+                                warnings.simplefilter("ignore")
+                                c(**kw)
+                            return True
+                        except TypeError:
+                            continue
+                    return False
+                if all(buildable(c) for c in cands):  # (no candidate at all: only ValueError is right)
+                    res = -1
+                else:
+                    raise common.MachineryError("could not instantiate alias %r of %s with any argument set" % (a, fam.__name__))
             queries.append({"root": 1, "alias": a, "result": res})
             run.evaluations += 1
         tid += 1
@@ -129,12 +174,46 @@ def live_registry(run):
     return traces
 
 
+class PlainMapping(collections.abc.Mapping):
+    """A mapping that is not a dict."""
+
+    def __init__(self, d):
+        self._d = dict(d)
+
+    def __getitem__(self, k):
+        return self._d[k]
+
+    def __iter__(self):
+        return iter(self._d)
+
+    def __len__(self):
+        return len(self._d)
+
+
+def chain(d):
+    keys = sorted(d)
+    return collections.ChainMap({k: d[k] for k in keys[::2]}, {k: d[k] for k in keys[1::2]})
+
+
+chain.__name__ = "ChainMap"
+
+
 class Frozen(dict):
     """A mapping that refuses mutation."""
 
     def _no(self, *a, **k):
         raise TypeError("mapping given to alias_factory_subclass_from_arg was mutated")
     __setitem__ = __delitem__ = pop = popitem = clear = update = setdefault = _no
+
+
+MAPPING_KINDS = (dict, Frozen, types.MappingProxyType, collections.OrderedDict, PlainMapping, chain)
+
+
+def remap(cfg, rng):
+    """the same nested configuration with each mapping level presented as some other kind of mapping"""
+    if isinstance(cfg, dict):
+        return rng.choice(MAPPING_KINDS)({k: remap(v, rng) for k, v in cfg.items()})
+    return cfg
 
 
 def from_arg_table(run):
@@ -171,17 +250,24 @@ def from_arg_table(run):
             run.violation({"kind": "from_arg_name_as_alias", "got": type(n).__name__})
     finally:
         Named.aliases = set()
-    for m in ({"alias": "gamma", "order": 2}, {"name": "hann"}, {"alias": "hamming", "name": "x"} if False else {"alias": "hamming"}):
-        for wrap in (dict, Frozen, types.MappingProxyType):
+    for m, cls in (({"alias": "gamma", "order": 2}, filters.GammaWindow), ({"name": "hann"}, filters.HannWindow),
+                   ({"alias": "hamming"}, filters.HammingWindow)):
+        for wrap in MAPPING_KINDS:
             arg = wrap(dict(m))
             before = dict(arg)
             try:
-                f(W, arg)
+                got = f(W, arg)
             except TypeError as e:
                 run.violation({"kind": "from_arg_mutates_mapping", "mapping": before, "wrapper": wrap.__name__, "error": str(e)})
                 continue
+            except Exception as e:
+                run.violation({"kind": "from_arg_mapping_not_treated_as_keyword_arguments", "mapping": before, "wrapper": wrap.__name__, "error": repr(e)})
+                continue
             if dict(arg) != before:
                 run.violation({"kind": "from_arg_mutates_mapping", "mapping": before, "wrapper": wrap.__name__, "after": dict(arg)})
+            if type(got) is not cls or (cls is filters.GammaWindow and got.order != 2):
+                run.violation({"kind": "from_arg_mapping_not_treated_as_keyword_arguments", "mapping": before, "wrapper": wrap.__name__,
+                               "got": type(got).__name__, "definition": cls.__name__})
             run.evaluations += 1
     for bad in ("no-such", {"alias": "no-such"}, {"name": "no-such"}):
         try:
@@ -208,6 +294,7 @@ def config_trees(run, tier, rng):
     ]
     win_specs = [("hamming", filters.HammingWindow), ("hann", filters.HannWindow), ("hanning", filters.HannWindow),
                  ("blackman", filters.BlackmanWindow), ("black", filters.BlackmanWindow), ("bartlett", filters.BartlettWindow),
+                 ("tri", filters.BartlettWindow), ("triangular", filters.BartlettWindow),
                  ({"name": "gamma", "order": 3}, lambda: filters.GammaWindow(order=3))]
     comp_specs = [(["stft"], "stft"), (["si"], "si")]
     trees = []
@@ -221,7 +308,9 @@ def config_trees(run, tier, rng):
                                 trees.append((cal, ckind, bal, bmk, takes_scale, sspec, smk, wspec, wmk, key))
     if tier == "quick":
         rng.shuffle(trees)
-        trees = trees[:160]
+        # aliases shared between families (bank 'tri' / window 'tri') are always included
+        shared = [t for t in trees if isinstance(t[7], str) and t[7] in ("tri", "triangular") and t[2] in ("tri", "triangular")]
+        trees = shared[:24] + trees[:160]
     for (cal, ckind, bal, bmk, takes_scale, sspec, smk, wspec, wmk, key) in trees:
         bank_cfg = {key: bal, "num_filts": 4, "sampling_rate": 8000}
         if takes_scale:
@@ -234,6 +323,13 @@ def config_trees(run, tier, rng):
         with warnings.catch_warnings():
             warnings.simplefilter("ignore")
             built = A.alias_factory_subclass_from_arg(compute.FrameComputer, cfg)
+            other = remap(cfg, rng)
+            try:
+                built2 = A.alias_factory_subclass_from_arg(compute.FrameComputer, other)
+                a2 = built2.compute_full(x)
+            except Exception as e:
+                built2, a2 = None, None
+                run.violation({"kind": "config_tree_of_other_mapping_kinds_raised", "config": json.loads(snapshot), "error": repr(e)})
             bank = bmk(smk(), num_filts=4, sampling_rate=8000)
             win = wmk()
             if ckind == "stft":
@@ -244,6 +340,8 @@ def config_trees(run, tier, rng):
         run.evaluations += 1
         if json.dumps(cfg, sort_keys=True) != snapshot:
             run.violation({"kind": "config_tree_mutated", "config": json.loads(snapshot)})
+        if a2 is not None and (type(built2) is not type(explicit) or a2.shape != b.shape or a2.tobytes() != b.tobytes()):
+            run.violation({"kind": "config_tree_of_other_mapping_kinds_differs", "config": json.loads(snapshot)})
         if type(built) is not type(explicit) or a.shape != b.shape or a.tobytes() != b.tobytes():
             run.violation({"kind": "config_tree_features_differ_from_explicit_construction", "config": json.loads(snapshot),
                            "built": type(built).__name__, "explicit": type(explicit).__name__})
@@ -272,10 +370,22 @@ def run(tier, seed):
     aliases = ["x", "y"]
     maxc = 4 if tier == "quick" else 5
     traces, tid = [], 0
+    fresh, nhist = {}, 0
     for table in class_tables(maxc, aliases):
         tid += 1
-        traces.append({"tid": tid, "classes": table, "queries": query_all(table, aliases)})
+        hist = []
+        traces.append({"tid": tid, "classes": table, "queries": query_all(table, aliases, hist)})
+        fresh[json.dumps(table, sort_keys=True)] = traces[-1]["queries"]
         run.evaluations += len(traces[-1]["queries"])
+        for (k, q) in hist:
+            nhist += len(q)
+            want = fresh[json.dumps(table[:k], sort_keys=True)]
+            if q != want:
+                bad = next(i for i in range(len(q)) if q[i] != want[i])
+                run.violation({"kind": "alias_answer_depends_on_what_was_registered_or_looked_up_later", "classes": table,
+                               "registered_so_far": k, "query": q[bad], "same_classes_built_alone": want[bad]})
+                break
+    run.extra["queries_between_registrations"] = nhist
     ntab = len(traces)
     traces += live_registry(run)
     rejected, tr = common.validate_traces_parallel("TraceAlias", "TraceAlias.cfg", traces, shards=12)
